@@ -615,3 +615,80 @@ package app
 //@   assert_at isSlavePermanentlyLost#1 C11.lost_against_master [C11]: callarg0 == sstatus && callarg1 == mgtids && mgtids == resultof("GTIDExecutedParsed", 1, 0) && resultof("(dcs.DCS).Get", 1) == nil
 //@   assert_at writeResetupFile#2 C11.resetup_when_lost [C11]: resultof("isSlavePermanentlyLost", 1)
 //@   assert_at writeResetupFile#1 C11.resetup_when_stuck [C11]: oldMasterStuck && master != localNode.host && resultof("time.Since", 1) >= StuckWaitTime
+
+// ---- C10: repair never changes the master, never points a server at itself, resets only when allowed -----
+
+//@ func (*app.App).getAlgorithmOrder
+//@   ensures C10.order_reset_only_aggressive [C10]: contains(result, ResetSlave) ==> app.config.ReplicationRepairAggressiveMode && channel != app.config.ExternalReplicationChannel
+//@   ensures C10.order_pure [C10]: tick == old(tick)
+
+//@ func (*app.App).getSuitableAlgorithmType
+//@   requires nonnil [safety]: state != nil
+//@   loop 1 invariant idx: -1 <= rangeindex
+//@   loop 1 invariant quiet: tick == old(tick)
+//@   ensures C10.suitable [C10]: result2 == nil ==> contains(resultof("getAlgorithmOrder", 1), result0) && result1 == state.History[result0] && result1 < app.config.ReplicationRepairMaxAttempts
+//@   ensures C10.suitable_limit [C10]: result2 == nil ==> result1 < app.config.ReplicationRepairMaxAttempts && result1 == state.History[result0]
+//@   ensures C10.suitable_in_order [C10]: result2 == nil && result0 == ResetSlave ==> app.config.ReplicationRepairAggressiveMode && channel != app.config.ExternalReplicationChannel
+//@   ensures C10.suitable_pure [C10]: tick == old(tick)
+
+//@ func (*app.ReplicationRepairState).cooldownPassed
+//@   requires nonnil [safety]: state != nil
+//@   ensures C10.cooldown [C10]: result <==> state.LastAttempt < time_now - replicationRepairCooldown
+//@   ensures C10.cooldown_pure [C10]: tick == old(tick)
+
+//@ func (*app.App).TryRepairReplication
+//@   requires notself: node != nil ==> node.host != master || channel == app.config.ExternalReplicationChannel
+//@   ensures C10.reset_gate [C10]: e_ResetSlaveAll > old(e_ResetSlaveAll) ==> app.config.ReplicationRepairAggressiveMode && channel != app.config.ExternalReplicationChannel && resultof("cooldownPassed", 1) && resultof("getSuitableAlgorithmType", 1, 2) == nil && resultof("getSuitableAlgorithmType", 1, 1) < app.config.ReplicationRepairMaxAttempts
+//@   ensures C10.try_cooldown [C10]: reached("cooldownPassed", 1) && !resultof("cooldownPassed", 1) ==> mysqlUntouched()
+//@   ensures C10.try_frame [C10]: repairFrame(node)
+//@   assert_at getSuitableAlgorithmType#1 C10.try_after_cooldown [C10]: resultof("cooldownPassed", 1)
+
+//@ define repairFrame(node *mysql.Node) = e_SetMaster == old(e_SetMaster) && e_SetWritable == old(e_SetWritable) && (node != nil ==> (forall h string :: h != node.host ==> touched[h] == old(touched)[h] && g_source[h] == old(g_source)[h]))
+
+//@ func app.StartSlaveAlgorithm
+//@   ensures C10.alg_start [C10]: repairFrame(node) && e_ResetSlaveAll == old(e_ResetSlaveAll) && e_ChangeMaster == old(e_ChangeMaster)
+
+//@ func app.ResetSlaveAlgorithm
+//@   requires notself: channel != app.config.ExternalReplicationChannel && node != nil ==> node.host != master
+//@   ensures C10.alg_reset [C10]: repairFrame(node) && e_ResetSlaveAll <= old(e_ResetSlaveAll) + 1
+//@   ensures C10.alg_reset_target [C10]: e_ChangeMaster > old(e_ChangeMaster) && node != nil ==> g_source[node.host] == master || resultof("ChangeMaster", 1) != nil
+//@   ensures C10.alg_reset_external [C10]: channel == app.config.ExternalReplicationChannel ==> mysqlUntouched()
+//@   assert_at ChangeMaster#1 C10.alg_reset_notself [C10]: callarg0 != callrecv.host
+
+//@ func app.ChangeSourceAlgorithm
+//@   ensures C10.alg_change [C10]: repairFrame(node) && e_ResetSlaveAll == old(e_ResetSlaveAll)
+
+//@ func (*app.App).repairCascadeNode
+//@   requires notmaster: node != nil ==> node.host != master
+//@   requires vals_nonnil [safety]: node != nil && clusterState[node.host] != nil
+//@   ensures C10.cascade_frame [C10,C16]: repairFrame(node) && e_ResetSlaveAll == old(e_ResetSlaveAll)
+//@   assert_at performChangeMaster#2 C16.move_only_when_contained [C16,C10]: sup(candidateGTIDs, myGTIDs) && !resultof("IsSplitBrained", 1) && callarg0 == host && callarg1 == upstreamCandidate && upstreamCandidate != upstreamMaster && resultof("GetReplicaStatus", 1, 1) == nil && textOf(myGTIDs) == resultof("GetExecutedGtidSet", 1)
+//@   assert_at performChangeMaster#1 C16.blind_repoint [C16,C10]: state.SlaveState == nil && callarg0 == host && callarg1 == cnc.StreamFrom
+//@   assert_at writeEmergeFile#1 C16.cascade_split [C16]: resultof("IsSplitBrained", 1) && !resultof("IsSlaveAhead", 1)
+
+//@ func (*app.App).repairSlaveNode
+//@   requires notmaster: node != nil ==> node.host != master
+//@   requires vals_nonnil [safety]: node != nil && clusterState[node.host] != nil
+//@   ensures C10.slave_frame [C10]: repairFrame(node)
+//@   ensures C10.slave_readonly_attempted [C10]: !old(clusterState[node.host].IsReadOnly) ==> e_SetReadOnly >= old(e_SetReadOnly) + 1
+//@   ensures C10.slave_stale_master [C10,C11]: old(clusterState[node.host].IsMaster) ==> e_SetOffline >= old(e_SetOffline) + 1 && e_ChangeMaster >= old(e_ChangeMaster) && reached("performChangeMaster", 1) && reached("SetRecovery", 1)
+//@   ensures C10.slave_stale_source [C10]: !old(clusterState[node.host].IsMaster) && !old(clusterState[node.host].IsCascade) && old(clusterState[node.host].SlaveState) != nil && old(clusterState[node.host].SlaveState.MasterHost) != master ==> reached("performChangeMaster", 2)
+//@   ensures C10.slave_stopped [C10]: !old(clusterState[node.host].IsMaster) && !old(clusterState[node.host].IsCascade) && old(clusterState[node.host].SlaveState) != nil && old(clusterState[node.host].SlaveState.MasterHost) == master && old(clusterState[node.host].SlaveState.ReplicationState) == mysql.ReplicationStopped ==> e_StartSlave >= old(e_StartSlave) + 1
+//@   assert_at SetRecovery#1 C11.stale_master_marked [C11,C10]: state.IsMaster && callarg0 == host
+//@   assert_at performChangeMaster#1 C10.stale_master_repoint [C10]: callarg0 == host && callarg1 == master
+//@   assert_at performChangeMaster#2 C10.stale_source_repoint [C10]: callarg0 == host && callarg1 == master
+
+//@ func (*app.App).repairMasterNode
+//@   requires vals_nonnil [safety]: masterNode != nil
+//@   ensures C10.master_frame [C10]: e_SetMaster == old(e_SetMaster) && e_SetActive == old(e_SetActive) && (forall h string :: h != masterNode.host ==> touched[h] == old(touched)[h])
+
+//@ func (*app.App).repairCluster
+//@   requires vals_nonnil [safety]: forall k string :: has(clusterState, k) ==> clusterState[k] != nil
+//@   loop 1 invariant frame: e_SetMaster == old(e_SetMaster)
+//@   ensures C10.never_changes_master [C10,C09]: e_SetMaster == old(e_SetMaster)
+//@   assert_at repairMasterNode#1 C10.master_branch [C10]: host == master
+//@   assert_at repairSlaveNode#1 C10.slave_branch [C10]: host != master && callarg2 == master && (node != nil ==> node.host == host)
+
+//@ func (*app.App).repairExternalReplication
+//@   requires vals_nonnil [safety]: masterNode != nil
+//@   ensures C10.external_frame [C10]: repairFrame(masterNode) && e_SetActive == old(e_SetActive)
